@@ -43,7 +43,15 @@ P_DEC = ["1/1000", "7/100", "3/10", 2, 50, 1100, "13/1000", "17/10", 230, "29/10
 SRC_REAL = [1, -2, 3, "1/2", 5, -7, 4, "3/2"]
 SRC_CPLX = [[1, 0], [-2, 1], [0, 3], ["1/2", -1], [5, 2], [-7, -3], [4, 1], ["3/2", 2]]
 
+# coincidence palette: every passive value equal, every source value equal (what equality-based lookups and de-duplication trip over)
+P_EQ = [5] * 16
+SRC_EQ = [1] * 8
+# wide palette: bench values over eighteen decades (judged only where binary64 can determine the solution, see common.tableau_condition)
+P_WIDE = ["1/1000000000", 4700, "22/1000000", 1000000, "3/100", 330, "1/10000000", 56000, 8, "47/100000", 120000, "1/1000", 2200, 15, "68/10000", 910000000]
+
 PALETTES = {
+    "eq": (P_EQ, SRC_EQ),
+    "wide": (P_WIDE, SRC_REAL),
     "real": (P_REAL, SRC_REAL),
     "cplx": (P_CPLX, SRC_CPLX),
     "dec": (P_DEC, SRC_REAL),
